@@ -73,8 +73,7 @@ def harness(args, enc=False, timeout=3600, stdin=None):
             summ = json.loads(l[8:])
         elif l.startswith("VIOLATION "):
             viol.append(l)
-    if summ is None and p.returncode in (101, -6, 134, -11, 139) and "panicked at" in p.stderr + p.stdout or \
-            summ is None and p.returncode in (-6, 134, -11, 139):
+    if summ is None and p.returncode in (101, -6, 134, -11, 139):
         # the harness process itself died of a panic / abort that escaped its catch_unwind nets (e.g. a panic while a
         # panic is being unwound, an abort in a destructor): a panic of the code under test is data, not a tool error
         pid = CURRENT_PID or "UNKNOWN"
